@@ -2,8 +2,8 @@
    Agg.partition mirrors Searcher::partition_output_buffer (groups in first-occurrence order; the
    real HashMap's order is unspecified, so the statements treat the group list as a set).
    Statements only. *)
-From Coq Require Import List ZArith NArith Bool Permutation.
-From FS Require Import lib.Str lib.Res lib.Dec gen.FuncGen model.Agg spec.AggSpec proofs.AggProofs.
+From Coq Require Import List ZArith NArith Bool Permutation Sorted.
+From FS Require Import lib.Str lib.Res lib.Dec lib.Cmp gen.FuncGen model.Agg spec.AggSpec proofs.AggProofs model.TopN model.Criteria proofs.TopNProofs.
 Import ListNotations.
 
 (* one group per distinct key value, none empty, every row in the group of its key *)
@@ -31,6 +31,23 @@ Theorem C08_conservation : forall ks buf key d, (sum_val key buf < two64)%N ->
   fold_right Nat.add 0%nat (map (fun p => count_val (snd p)) (Agg.partition ks buf)) = count_val buf.
 Proof. exact partition_conservation. Qed.
 
+(* ORDER BY in a grouped query (fix 37c6ae7): the group rows are ordered with Criteria, the typed comparator of
+   ungrouped rows (C05) - whatever the ordering keys are (grouping keys, aggregates, selected or not), the output is a
+   permutation of the group rows, and every row precedes only rows whose ordering values are not smaller *)
+Definition order_groups (numkey datekey : str -> Z) (ks : list (kind * bool)) (groups : list (list str * str)) : list (list str * str) :=
+  run (crit_le numkey datekey ks) None groups.
+Theorem C08_order_groups : forall numkey datekey ks (groups : list (list str * str)),
+  Forall (fun g => length (fst g) = length ks) groups ->
+  Permutation (order_groups numkey datekey ks groups) groups /\
+  StronglySorted (fun a b => crit_le numkey datekey ks (fst a) (fst b) = true) (order_groups numkey datekey ks groups).
+Proof.
+  intros numkey datekey ks groups H. split; [apply run_perm|].
+  apply (run_sorted _ _ (crit_le numkey datekey ks) (crit_le_total numkey datekey ks) (fun k => length k = length ks)).
+  - intros a b c Pa Pb Pc. apply crit_le_trans; assumption.
+  - exact H.
+Qed.
+
+Print Assumptions C08_order_groups.
 Print Assumptions C08_keys_distinct.
 Print Assumptions C08_groups_nonempty.
 Print Assumptions C08_member_has_group_key.
